@@ -62,7 +62,9 @@ type plan struct {
 	QuitFirst bool // channel mode: close quit before Fini
 	Posters   [][]postStep
 	App       []appStep
-	ReadErr   int // >=0: tty read fails after that many bytes
+	ReadErr   int  // >=0: tty read fails after that many bytes
+	ZeroReads int  // number of reads that return 0,nil
+	WriteFail bool // C06: tty writes fail from the moment the shutdown call starts
 	Shutdown  shutdownPlan
 }
 
@@ -158,6 +160,9 @@ func drawPlan(t *rapid.T, mode string) *plan {
 			Check: rapid.Bool().Draw(t, "pendcheck"),
 		})
 	}
+	if rapid.IntRange(0, 3).Draw(t, "zeroreads") == 0 {
+		p.ZeroReads = rapid.IntRange(1, 5).Draw(t, "nzero")
+	}
 	p.Channel = rapid.IntRange(0, 3).Draw(t, "channel") == 0
 	p.QuitFirst = rapid.Bool().Draw(t, "quitfirst")
 	nposters := rapid.IntRange(0, 3).Draw(t, "nposters")
@@ -194,6 +199,8 @@ func drawPlan(t *rapid.T, mode string) *plan {
 		if rapid.IntRange(0, 7).Draw(t, "readerr") == 0 {
 			p.ReadErr = rapid.IntRange(0, 60).Draw(t, "readerrafter")
 		}
+		p.Cfg.Polling = rapid.IntRange(0, 5).Draw(t, "polling") == 0
+		p.WriteFail = rapid.IntRange(0, 7).Draw(t, "writefail") == 0
 	} else {
 		p.Shutdown.Kind = "fini"
 	}
@@ -238,6 +245,7 @@ type ew struct {
 	consumers int
 
 	calling   string
+	runPhase  func() simrt.Status
 	finied    bool
 	suspended bool
 	resumeErr error
@@ -623,7 +631,17 @@ func run(t *rapid.T, mode string) {
 		w.Tty.ReadErr = hx.ErrInjected
 		w.Tty.ErrAfter = p.ReadErr
 	}
+	w.Tty.ZeroReads = p.ZeroReads
 	s := w.S
+	// a polling tty never lets the system go quiet: bound each phase by
+	// simulated time instead (closed-system liveness bound: 30 s)
+	runPhase := func() simrt.Status {
+		if p.Cfg.Polling {
+			return s.RunUntil(nil, s.Now()+30*time.Second)
+		}
+		return s.Run()
+	}
+	w.runPhase = runPhase
 	s.Spawn("app", w.appActor)
 	s.Spawn("poller", w.pollerActor)
 	for i := range p.Posters {
@@ -636,7 +654,7 @@ func run(t *rapid.T, mode string) {
 		sd = s.Spawn("shutdown", w.shutdownActor)
 	}
 
-	st := s.Run()
+	st := runPhase()
 	inconclusive := false
 	if st == simrt.Budget && mode != "C06" {
 		inconclusive = true
@@ -685,7 +703,7 @@ func (w *ew) phaseDrain() {
 	if w.Tty.ReadErr == nil && w.p.ReadErr < 0 {
 		// fault-free: drain and require completeness
 		s.Spawn("drainer", w.drainer)
-		if st := s.Run(); st == simrt.Budget {
+		if st := w.runPhase(); st == simrt.Budget {
 			hx.St.Probe("phase2_budget", 1)
 			return
 		}
@@ -756,6 +774,9 @@ func (w *ew) shutdownActor() {
 	if sd.ErrDuring {
 		w.Tty.ReadErr = hx.ErrInjected
 		w.Tty.ErrAfter = 0
+	}
+	if w.p.WriteFail {
+		w.Tty.WriteFail = true // liveness only: the restore sequences are lost
 	}
 	switch sd.Kind {
 	case "fini":
@@ -829,7 +850,7 @@ func (w *ew) phaseAfterShutdown(sd *simrt.G, st simrt.Status) {
 			w.resize(nw, nh)
 		})
 		s.Spawn("drainer", w.drainer)
-		if s.Run() == simrt.Budget {
+		if w.runPhase() == simrt.Budget {
 			hx.St.Probe("phase2_budget", 1)
 			return
 		}
@@ -865,7 +886,7 @@ func (w *ew) phaseAfterShutdown(sd *simrt.G, st simrt.Status) {
 			w.Failf("C06/resume-dead", "a resize to %dx%d after Resume was never delivered; resizes seen %d", nw, nh, len(w.resizes))
 		}
 		fin := s.Spawn("finisher", func() { w.call("fini", w.Scr.Fini) })
-		s.Run()
+		w.runPhase()
 		if !fin.Done() {
 			w.Failf("C06/deadlock/fini", "Fini never returns: %v", s.Blocked())
 			return
@@ -921,7 +942,7 @@ func (w *ew) phaseAfterShutdown(sd *simrt.G, st simrt.Status) {
 		}
 		w.pokeAll()
 	})
-	s.Run()
+	w.runPhase()
 	if !post.Done() && post.Panic == nil {
 		w.Failf("C06/poll-after-fini", "a Screen call after Fini never returns: %v", s.Blocked())
 	}
